@@ -2493,6 +2493,140 @@ func ruleTUUIDFREE(p *Program, r *Reporter) {
 				ifs(ok, "the update is only built after an existence lookup keyed by the operation's uuid let it through", "the insert is turned into an update without asking whether its uuid is already in use: an insert carrying the uuid of an existing row passes validation, monitors are notified, and Commit fails half way leaving part of the transaction in the database"))
 		}
 	}
+	// exemptions: a branch that lets the insert skip the database lookup on the strength
+	// of a map the transaction keeps (rows it deleted) must be keyed by the table as
+	// well as the uuid - uuids are unique per table only, and the lookup it replaces is
+	// (table, uuid)
+	tableFld := p.Field("ovsdb", "Operation", "Table")
+	var fromTable func(v ssa.Value, depth int) bool
+	fromTable = func(v ssa.Value, depth int) bool {
+		if v == nil || depth > 4 || tableFld == nil {
+			return false
+		}
+		switch x := v.(type) {
+		case *ssa.UnOp:
+			if fa, ok := x.X.(*ssa.FieldAddr); ok && fieldOfAddr(fa) == tableFld {
+				return true
+			}
+			return fromTable(x.X, depth+1)
+		case *ssa.BinOp:
+			return fromTable(x.X, depth+1) || fromTable(x.Y, depth+1)
+		case *ssa.Convert:
+			return fromTable(x.X, depth+1)
+		case *ssa.ChangeType:
+			return fromTable(x.X, depth+1)
+		case *ssa.MakeInterface:
+			return fromTable(x.X, depth+1)
+		case *ssa.Alloc:
+			// a composite key built in place: any store of the table into it
+			if refs := x.Referrers(); refs != nil {
+				for _, ref := range *refs {
+					switch u := ref.(type) {
+					case *ssa.Store:
+						if fromTable(u.Val, depth+1) {
+							return true
+						}
+					case *ssa.FieldAddr, *ssa.IndexAddr:
+						if rr := u.(ssa.Value).Referrers(); rr != nil {
+							for _, r2 := range *rr {
+								if st, ok := r2.(*ssa.Store); ok && fromTable(st.Val, depth+1) {
+									return true
+								}
+							}
+						}
+					}
+				}
+			}
+		}
+		return false
+	}
+	var keyedByTable func(lk *ssa.Lookup, depth int) bool
+	keyedByTable = func(lk *ssa.Lookup, depth int) bool {
+		if depth > 3 {
+			return false
+		}
+		if fromTable(lk.Index, 0) {
+			return true
+		}
+		inner := lk.X
+		if ex, ok := inner.(*ssa.Extract); ok {
+			inner = ex.Tuple
+		}
+		if l2, ok := inner.(*ssa.Lookup); ok {
+			return keyedByTable(l2, depth+1)
+		}
+		return false
+	}
+	var lookupsOf func(v ssa.Value, depth int, out *[]*ssa.Lookup)
+	lookupsOf = func(v ssa.Value, depth int, out *[]*ssa.Lookup) {
+		if v == nil || depth > 6 {
+			return
+		}
+		switch x := v.(type) {
+		case *ssa.Lookup:
+			if _, isMap := x.X.Type().Underlying().(*types.Map); isMap {
+				*out = append(*out, x)
+			}
+		case *ssa.Extract:
+			lookupsOf(x.Tuple, depth+1, out)
+		case *ssa.BinOp:
+			lookupsOf(x.X, depth+1, out)
+			lookupsOf(x.Y, depth+1, out)
+		case *ssa.UnOp:
+			lookupsOf(x.X, depth+1, out)
+		case *ssa.Phi:
+			for _, e := range x.Edges {
+				lookupsOf(e, depth+1, out)
+			}
+		}
+	}
+	for _, g := range sortedFuncs(p.PrivateRegion(fn)) {
+		for _, b := range g.Blocks {
+			for _, ins := range b.Instrs {
+				c, ok := ins.(*ssa.Call)
+				if !ok || !c.Call.IsInvoke() || c.Call.Method.Name() != "Get" {
+					continue
+				}
+				keyed := false
+				for _, a := range c.Call.Args {
+					if isUUIDLoad(a) {
+						keyed = true
+					}
+				}
+				if !keyed {
+					continue
+				}
+				for d := b; d != nil; d = d.Idom() {
+					iff, isIf := d.Instrs[len(d.Instrs)-1].(*ssa.If)
+					if !isIf {
+						continue
+					}
+					skips := false
+					for _, s := range d.Succs {
+						if s != b && !blockReaches(s, b) {
+							skips = true
+						}
+					}
+					if !skips {
+						continue
+					}
+					var lks []*ssa.Lookup
+					lookupsOf(iff.Cond, 0, &lks)
+					// the condition may be a phi of short-circuit arms: look at the arms' tests too
+					for _, pr := range d.Preds {
+						if pif, ok := pr.Instrs[len(pr.Instrs)-1].(*ssa.If); ok {
+							lookupsOf(pif.Cond, 0, &lks)
+						}
+					}
+					for _, lk := range lks {
+						okT := keyedByTable(lk, 0)
+						r.Ob(id, funcName(g), "exemption from the lookup keyed by table and uuid", lk.Pos(), okT, true,
+							ifs(okT, "the map that lets an insert skip the database lookup is keyed by the table as well as the uuid", "the insert skips the database lookup because a map keyed by the uuid alone says the row was deleted: a row of another table with the same uuid was deleted, the row of this table still exists, the clash is only noticed by Commit, half way"))
+					}
+				}
+			}
+		}
+	}
 	if n < 1 {
 		r.Anchor(id, "Transaction.Insert: call building the update (AddOperation)")
 	}
